@@ -105,6 +105,35 @@ impl<'a> ReadNoStd for Exact<'a> {
     }
 }
 
+/// Reader at the `ReadNoStd` boundary that fails at its J-th call (J is a
+/// harness-instance constant: no symbolic branching on the failure path, which
+/// keeps deep, heap-building deserializers tractable).
+pub struct FailAtCall<'a> {
+    pub data: &'a [u8],
+    pub pos: usize,
+    pub calls: usize,
+    pub fail_call: usize,
+    pub failed: bool,
+}
+impl<'a> FailAtCall<'a> {
+    pub fn new(data: &'a [u8], fail_call: usize) -> Self {
+        Self { data, pos: 0, calls: 0, fail_call, failed: false }
+    }
+}
+impl<'a> ReadNoStd for FailAtCall<'a> {
+    fn read_exact(&mut self, buf: &mut [u8]) -> epserde::deser::Result<()> {
+        let n = buf.len();
+        if self.calls == self.fail_call || self.pos + n > self.data.len() {
+            self.failed = true;
+            return Err(epserde::deser::Error::ReadError);
+        }
+        self.calls += 1;
+        buf.copy_from_slice(&self.data[self.pos..self.pos + n]);
+        self.pos += n;
+        Ok(())
+    }
+}
+
 /// Writer that must never be reached (C17): any byte written is a failed check.
 pub struct Tripwire;
 impl WriteNoStd for Tripwire {
